@@ -406,6 +406,26 @@ BASES = {
     "all_with_error": ("r", "g", "h", "x"),
 }
 ONE_STATE = {"ground-rydberg": "r", "digital": "h", "XY": "d"}
+# documented "one state" of a two-level eigenbasis (never read from State.infer_one_state)
+INFERRED_ONE = {frozenset("rg"): "r", frozenset("gh"): "h", frozenset("ud"): "d", frozenset("01"): "1"}
+
+
+def inferred_one_state(eig) -> str:
+    """The state that measures to 1 when none is given: r (ground-rydberg), h (digital), d (XY), "1"."""
+    return INFERRED_ONE[frozenset(eig)]
+
+
+def eigenbasis_of_channels(channels) -> tuple:
+    """Eigenbasis of an emulation from the channels a sequence uses (documented energy ranking
+    u d r g h x), independent of SequenceSamples.eigenbasis / Hamiltonian.eigenbasis."""
+    chans = set(channels)
+    if "mw" in chans:
+        return BASES["XY"]
+    if "ram" in chans and "ryd" in chans:
+        return BASES["all"]
+    if "ram" in chans:
+        return BASES["digital"]
+    return BASES["ground-rydberg"]
 
 
 def small_frac(rng, den_choices=(1, 2, 4, 8), lo=-8, hi=8) -> Fraction:
